@@ -118,6 +118,16 @@ func init() {
 			S("$a = [%s];\necho implode(',', array_keys($a)), '|', array_key_first($a), '|', json_encode($a), '|', implode(',', $a), '|', key($a);\nforeach ($a as $k => $v) { echo \" $k=$v\"; }\necho \"\\n\";\nvar_dump($a);\n",
 				joinMap(xs, ", ", func(i int, x string) string { return S("%s => %d", q(x), i+1) }))
 	})
+	ord("ord-array-long-syntax", func(r *vh.Rand, u string) string {
+		// array(…) with positional members first and keyed members after them is a node of its own
+		// (node.Array with Keys); the short syntax with the same members is node.Kv
+		xs := scrambled(r, n(r, 3, 5))
+		ys := scrambled(r, 3)
+		keyed := joinMap(xs, ", ", func(i int, x string) string { return S("%s => %d", q(x), i+1) })
+		return expectLine(strings.Join(xs, ",")) +
+			S("$a = array(%s, %s);\n$b = array(%s);\n$c = array(%s);\n$d = [%s, %s];\nforeach ([$a, $b, $c, $d] as $arr) { echo json_encode($arr), '|', implode(',', array_keys($arr)), '|', implode(',', $arr), '|'; foreach ($arr as $k => $v) { echo \"$k=$v \"; } echo \"\\n\"; }\n",
+				quoted(ys), keyed, keyed, quoted(ys), quoted(ys), keyed)
+	})
 	ord("ord-array-int-keys", func(r *vh.Rand, u string) string {
 		ks := []int{7, 2, 9, 4, 11, 5}
 		k := n(r, 4, 6)
@@ -236,6 +246,12 @@ func init() {
 			S("%s\necho \"\\n\";\nfunction st_%s() { %s }\nst_%s();\n$c = function() { %s };\n$c();\nif (true) { %s } else { echo 'no'; }\nforeach ([1] as $_v) { %s }\ntry { %s throw new Exception('x'); } catch (Exception $e) { %s } finally { %s }\necho \"\\n\";\n",
 				body, u, body, u, body, body, body, body, body, body)
 	})
+	ord("ord-namespace-statements", func(r *vh.Rand, u string) string {
+		// a namespaced entry: its statements are the members of node.Namespace.Statements (own handler)
+		xs := scrambled(r, n(r, 4, 6))
+		return expectLine(strings.Join(xs, ",")) +
+			S("namespace NO_%s;\nfunction who() { return 'w'; }\n%s\necho who(), \"\\n\";\n", u, joinMap(xs, "\n", func(_ int, x string) string { return S("echo %s;", q(x+",")) }))
+	})
 	ord("ord-echo-args", func(r *vh.Rand, u string) string {
 		xs := scrambled(r, n(r, 4, 6))
 		return expectLine(strings.Join(xs, "")) +
@@ -325,7 +341,7 @@ func init() {
 	ord("ord-for-lists", func(r *vh.Rand, u string) string {
 		xs := scrambled(r, 4)
 		return expectLine(S("<%s><%s>", xs[0], xs[1])) + tr(u) +
-			S("for (t_%s(%s), t_%s(%s), $i = 0; $i < 2; t_%s(%s), t_%s(%s), $i++) { echo $i; }\necho \"\\n\";\nfor ($i = 0, $j = 9, $k = 3; $i < 3; $i++, $j -= $i, $k = $j - $k) { echo \"$i.$j.$k \"; }\necho \"\\n\";\n",
+			S("for (t_%s(%s), t_%s(%s), $i = 0; $i < 2; t_%s(%s), t_%s(%s), $i++) { echo $i; }\necho \"\\n\";\nfor ($i = 0, $j = 9, $k = 3; $i < 3; $i++, $j--, $k += $i) { echo \"$i.$j.$k \"; }\necho \"\\n\";\n",
 				u, q(xs[0]), u, q(xs[1]), u, q(xs[2]), u, q(xs[3]))
 	})
 	ord("ord-const-sequence", func(r *vh.Rand, u string) string {
@@ -407,8 +423,11 @@ func init() {
 		cls("ord-props-"+ob.name, func(r *vh.Rand, u, ns string) (string, map[string]string) {
 			xs := scrambled(r, n(r, 3, 6))
 			exp := strings.Join(xs, ",")
-			if ob.name == "first-key" {
+			switch ob.name {
+			case "first-key":
 				exp = "first=" + xs[0]
+			case "var-export": // prints the values only: 1, 2, 3 … in declaration order
+				exp = "=> 1,=> 2,=> 3"
 			}
 			return expectLine(exp) + S("$o = new \\%s\\Rec();\n", ns) + ob.code,
 				map[string]string{"Rec": "class Rec {\n" + propDecls(r, xs, false, false) + walk + "}\n"}
@@ -519,8 +538,8 @@ func init() {
 		ps := joinMap(xs, ", ", func(_ int, x string) string { return "$" + x })
 		show := joinMap(xs, " ", func(_ int, x string) string { return x + "=$" + x })
 		return expectLine(joinMap(xs, " ", func(i int, x string) string { return S("%s=%d", x, i+1) })) + tr(u) +
-				S("use %s\\Svc;\n$s = new Svc(1, 2, 3, 4);\necho $s->shown, '|', $s->m(1, 2, 3, 4), '|', Svc::sm(1, 2, 3, 4), '|', $s->m(t_%s(1), t_%s(2), t_%s(3), t_%s(4)), '|', Svc::make(4, 3, 2, 1)->shown, \"\\n\";\n", ns, u, u, u, u),
-			map[string]string{"Svc": S("class Svc {\n  public $shown;\n  function __construct(%s) { $this->shown = \"%s\"; }\n  function m(%s) { return \"%s\"; }\n  static function sm(%s) { return \"%s\"; }\n  static function make(%s) { return new static(%s); }\n}\n", ps, show, ps, show, ps, show, ps, ps)}
+				S("use %s\\Svc;\n$s = new Svc(1, 2, 3, 4);\necho $s->shown, '|', $s->m(1, 2, 3, 4), '|', Svc::sm(1, 2, 3, 4), '|', $s->m(t_%s(1), t_%s(2), t_%s(3), t_%s(4)), '|', Svc::make(4, 3, 2, 1)->shown, '|', Svc::mk2(5, 6, 7, 8)->shown;\n$cn = '%s\\\\Svc'; $d = new $cn(9, 8, 7, 6);\necho '|', $d->shown, \"\\n\";\n", ns, u, u, u, u, ns),
+			map[string]string{"Svc": S("class Svc {\n  public $shown;\n  function __construct(%s) { $this->shown = \"%s\"; }\n  function m(%s) { return \"%s\"; }\n  static function sm(%s) { return \"%s\"; }\n  static function make(%s) { return new static(%s); }\n  static function mk2(%s) { return new self(%s); }\n}\n", ps, show, ps, show, ps, show, ps, ps, ps, ps)}
 	})
 	cls("ord-method-body-chain", func(r *vh.Rand, u, ns string) (string, map[string]string) {
 		xs := scrambled(r, 4)
